@@ -50,11 +50,20 @@ func c06Case(c *rep.Ctx, r c06Replay) {
 	switch r.Target {
 	case "missing":
 		os.Remove(target)
+	case "mode-0700", "mode-0775":
+		// a target directory (and a directory next to it) with permissions of its own: they are the caller's
+		var m os.FileMode = 0o700
+		if r.Target == "mode-0775" {
+			m = 0o775
+		}
+		os.Chmod(target, m)
+		os.Chmod(filepath.Dir(target), m)
 	}
 	if len(r.Pre) > 0 {
 		fsx.Populate(target, r.Pre)
 	}
 	before := fsx.Snapshot(j.Root)
+	modesBefore := fsx.DirModes(j.Root)
 	var err error
 	afterCall := func() {}
 	opts := []gtree.Option{gtree.WithTargetDir(target), gtree.WithFileExtensions(r.Exts)}
@@ -124,6 +133,14 @@ func c06Case(c *rep.Ctx, r c06Replay) {
 	}
 	if d := fsx.Diff(before.Outside("p/q/target"), after.Outside("p/q/target")); d != "" {
 		c.Violation("C06|changed-outside-target", desc+": "+d, size, r)
+	}
+	// nothing that existed before has changed: that includes the permissions of directories (the target's too)
+	modesAfter := fsx.DirModes(j.Root)
+	for p, m := range modesBefore {
+		if ma, ok := modesAfter[p]; ok && ma != m {
+			c.Violation("C06|mode-of-existing-directory-changed", fmt.Sprintf("%s: %s was %o and is %o after the call", desc, p, m, ma), size, r)
+			break
+		}
 	}
 	rootExists := false
 	for _, rt := range m {
@@ -244,6 +261,15 @@ func init() {
 								if !strings.Contains(ex, "massive") {
 									b.Pre = map[string]byte{roots[len(roots)-1]: 'd', "unrelated": 'f'}
 									c06Case(c, b)
+								} else if len(f) == 1 {
+									// (several roots: what a failing massive Mkdir leaves behind is C10's known finding)
+									for _, kind := range []byte{'d', 'f'} {
+										b.Route = "md"
+										b.Pre = map[string]byte{roots[0]: kind, "unrelated": 'f'}
+										c06Case(c, b)
+										b.Route = "root"
+										c06Case(c, b)
+									}
 								}
 							}
 						}
@@ -254,7 +280,7 @@ func init() {
 						b.Target = "missing"
 						c06Case(c, b)
 						if n <= 3 {
-							for _, tg := range []string{"cwd-empty-option", "cwd-no-option", "trailing-slash", "relative", "given-twice", "cwd-given-last", "symlink"} {
+							for _, tg := range []string{"cwd-empty-option", "cwd-no-option", "trailing-slash", "relative", "given-twice", "cwd-given-last", "symlink", "mode-0700", "mode-0775"} {
 								b := base
 								b.Target = tg
 								c06Case(c, b)
